@@ -572,6 +572,13 @@ func (cs *CaseStatement) Idx0() file.Idx {
 
 // Idx1 implements Node.
 func (cs *CaseStatement) Idx1() file.Idx {
+	if len(cs.Consequent) == 0 {
+		// a clause without statements ends with its colon
+		if cs.Test != nil {
+			return cs.Test.Idx1() + 1
+		}
+		return cs.Case + 8 // default:
+	}
 	return cs.Consequent[len(cs.Consequent)-1].Idx1()
 }
 
